@@ -100,6 +100,9 @@ def build_series(cfg):
             arr = buffers.reuse(f"e2e.series.{si}", arr)       # same array object as in earlier runs of this process
         out.append(arr)
     cfg.pop("_last_reg", None)
+    if cfg.get("first_series_dtype") and len(out) >= 2 and not cfg.get("reuse_buffers") and not cfg.get("series_as_views"):
+        # recordings of different element types in one joint call, the narrowest first
+        out[0] = np.round(out[0]).astype("int64") if cfg["first_series_dtype"] == "int64" else out[0].astype(cfg["first_series_dtype"])
     if cfg.get("series_kind") and not cfg.get("reuse_buffers") and not cfg.get("series_as_views"):
         from harness import buffers
         out = [buffers.as_kind(a, cfg["series_kind"]) for a in out]
@@ -379,6 +382,10 @@ def run(cfg, sync_pool=True, record_admm=True, admm_wrapper=None, series=None, e
                   iteration_limit=cfg["limit"], min_meaningful_covariance=cfg.get("eps", 0),
                   num_processors=cfg.get("num_processors", 1), min_cluster_size=cfg["m"],
                   biased_covariance=cfg.get("biased", False))
+    if cfg.get("flag_form") == "np.bool_":
+        kwargs["biased_covariance"] = np.bool_(kwargs["biased_covariance"])
+    elif cfg.get("flag_form") == "int":
+        kwargs["biased_covariance"] = int(bool(kwargs["biased_covariance"]))
     if extra_kwargs:
         kwargs.update(extra_kwargs)
     trace.kwargs = kwargs
